@@ -79,6 +79,12 @@ func newEnv() *env {
 
 // fingerprint of every shared object (exact limbs / bytes, through field-access hooks).
 func (e *env) fingerprint() string {
+	if secec.VerifPrivInternals == nil || secec.VerifPubInternals == nil || bitcoin.VerifSchnorrPrivInternals == nil || bitcoin.VerifSchnorrPubInternals == nil {
+		// layout hooks unavailable: fingerprint through the public accessors (copies) instead of the stored fields
+		return fmt.Sprint(lib.Raw(e.P1), lib.Raw(e.P2), secp256k1.VerifScalarLimbs(e.S1), secp256k1.VerifScalarLimbs(e.S2),
+			e.K.Bytes(), e.Q.Bytes(), lib.Raw(e.Q.Point()), e.peerQ.Bytes(), e.SK.Bytes(), e.SPK.Bytes(), lib.Raw(e.SPK.Point()),
+			e.digest, e.msg, e.sigDER, e.sigRec, e.schnorrSig, e.dst, e.dstA, e.dstB, secp256k1.VerifScalarLimbs(e.sigR), secp256k1.VerifScalarLimbs(e.sigS))
+	}
 	ks, kp := secec.VerifPrivInternals(e.K)
 	qp, qb := secec.VerifPubInternals(e.Q)
 	_, kpb := secec.VerifPubInternals(kp)
